@@ -1735,8 +1735,18 @@ class Node:
 
         """
         realm_name = self.realm_name
-        if getattr(message, "destination_realm", None) is not None:
-            realm_name = message.destination_realm.decode()
+        dest_realm = getattr(message, "destination_realm", None)
+        if dest_realm is None and not hasattr(message, "avp_def"):
+            # a message without attribute definitions (a command without
+            # python implementation, a plain `Message` given a list of AVPs)
+            # carries its realm in the AVP list only
+            for avp in message.avps:
+                if (avp.code == constants.AVP_DESTINATION_REALM and
+                        not avp.vendor_id):
+                    dest_realm = avp.payload
+                    break
+        if dest_realm is not None:
+            realm_name = dest_realm.decode()
 
         peer_list = None
         if realm_name in self._peer_routes:
